@@ -1,27 +1,46 @@
 import Model.C06.Address
 /-
-SLIP132: which address type an extended-key version commits to (`slip132.address_from_xpub`,
-`p2pkh_xkey / p2wpkh_p2sh_xkey / p2wpkh_xkey`). The version table is generated from `network.py`.
+SLIP132 (`btclib/slip132.py`), mirrored function by function:
+* `_helper_checks`: the network is `NETWORKS[network_from_xkeyversion(xkey.version)]` (first network carrying
+  the version among its private or public versions);
+* `p2pkh_xkey / p2wpkh_xkey / p2wpkh_p2sh_xkey`: `version = network.A if xkey.is_private else network.B` —
+  which A and B each builder reads is REGENERATED from the source (`Gen.Net.SLIP132_BUILDERS`); the privacy
+  is that of the KEY (`key[0] == 0`), a parameter here;
+* `address_from_xpub`: the first (field, address function) of the regenerated `Gen.Net.SLIP132_ADDRESS` whose
+  field of some network equals the version, with `network_from_key_value`'s first-match network.
+The table `Gen.Net.SLIP132` (version ↦ script type, private?, main?) is read off the Network field NAMES.
 -/
 namespace Btc.Slip132
 open Gen.Net
 
-/-- (script type, private?, main?) of a version. -/
+/-- (script type, private?, main?) of a version, by the NAME of the Network field that holds it. -/
 def info (version : List Nat) : Option (Nat × Bool × Bool) :=
   (SLIP132.find? fun r => r.1 = version).map (·.2)
 
-/-- `slip132.address_from_xpub` dispatch: the address type written for a PUBLIC key of this version
-    (0 p2pkh, 1 p2wpkh, 2 p2wpkh-p2sh); the p2wsh kinds have no single-key address. -/
-def addressKind (version : List Nat) : Option Nat :=
-  match info version with
-  | some (k, false, _) => if k ≤ 2 then some k else none
-  | _ => none
+/-- a Network field named by (private list?, position). -/
+def fieldOf (f : Bool × Nat) (n : Network) : List Nat := (if f.1 then n.xprv else n.xpub).getD f.2 []
 
-/-- `p2pkh_xkey / p2wpkh_xkey / p2wpkh_p2sh_xkey`: the version given to a child of `parent`'s network and
-    privacy for script type `k`. -/
-def versionFor (parent : List Nat) (k : Nat) : Option (List Nat) :=
-  match info parent with
-  | none => none
-  | some (_, prv, main) => (SLIP132.find? fun r => r.2.1 = k ∧ r.2.2.1 = prv ∧ r.2.2.2 = main).map (·.1)
+/-- `network.network_from_xkeyversion`: first network (iteration order) carrying the version. -/
+def networkFromXkeyVersion (version : List Nat) : Option Network :=
+  NETWORKS.find? fun n => (n.xprv ++ n.xpub).contains version
+
+/-- `p2pkh_xkey / p2wpkh_xkey / p2wpkh_p2sh_xkey` (by function name): the version handed to `derive` for a
+    parent of this version whose key is private (`key[0] == 0`) or not. -/
+def builderVersion (fn : String) (parent : List Nat) (isPrivate : Bool) : Option (List Nat) :=
+  match SLIP132_BUILDERS.find? (fun r => r.1 = fn), networkFromXkeyVersion parent with
+  | some (_, fprv, fpub), some net => some (fieldOf (if isPrivate then fprv else fpub) net)
+  | _, _ => none
+
+/-- `address_from_xpub` dispatch: (address function, network it writes with); `none` is "unknown xpub version". -/
+def addressDispatch (version : List Nat) : Option (String × Network) :=
+  SLIP132_ADDRESS.findSome? fun r => (Address.networkFrom (fieldOf r.1) version).map fun m => (r.2, m)
+
+/-- the script type a builder is FOR (its name; 0 p2pkh, 1 p2wpkh, 2 p2wpkh-p2sh as in `Gen.Net.XKEY_KINDS`). -/
+def builderKind : String → Option Nat
+  | "p2pkh_xkey" => some 0 | "p2wpkh_xkey" => some 1 | "p2wpkh_p2sh_xkey" => some 2 | _ => none
+
+/-- the script type an address function writes. -/
+def functionKind : String → Option Nat
+  | "b58.p2pkh" => some 0 | "b32.p2wpkh" => some 1 | "b58.p2wpkh_p2sh" => some 2 | _ => none
 
 end Btc.Slip132
